@@ -6,7 +6,214 @@ package main
 import (
 	"fmt"
 	"go/ast"
+	"go/token"
+	"strings"
 )
+
+// ---------------------------------------------------------------------------------------------
+// Control skeletons (tie 1 for the hand-written state machines of Model/Iter.lean, Model/Stream.lean).
+//
+// combSkeleton renders the body of a method as the nested sequence of its statement kinds, all
+// identifiers, operators and literals normalised away:
+//   asg (assignment / short declaration)   var (declaration)   call (expression statement)
+//   inc dec   ret   brk cont goto fall   defer go send   if{..}else{..}   for{..}   range{..}
+//   switch{case{..}..}   select{case{..}..}   {..} (block)
+// A statement that calls a method named Next / Peek / Close is tagged <Next> / <Peek> / <Close> (one
+// tag per call, in source order); a call through a field of the receiver (a user callback such as
+// s.keep(..), iter.f(..)) is tagged <cb>. So an added early return, a dropped branch, an extra pull
+// from the source, an extra or missing callback call or Close, a goroutine or a channel operation all
+// change the string.
+
+func combSkelTags(recv string, nodes ...ast.Node) string {
+	var b strings.Builder
+	for _, n := range nodes {
+		if n == nil {
+			continue
+		}
+		ast.Inspect(n, func(x ast.Node) bool {
+			if _, ok := x.(*ast.FuncLit); ok {
+				b.WriteString("<func>")
+				return false
+			}
+			ce, ok := x.(*ast.CallExpr)
+			if !ok {
+				return true
+			}
+			if se, ok := ce.Fun.(*ast.SelectorExpr); ok {
+				switch se.Sel.Name {
+				case "Next", "Peek", "Close":
+					b.WriteString("<" + se.Sel.Name + ">")
+				default:
+					if id, ok := se.X.(*ast.Ident); ok && recv != "" && id.Name == recv {
+						b.WriteString("<cb>")
+					}
+				}
+			} else if id, ok := ce.Fun.(*ast.Ident); ok && !combBuiltin[id.Name] {
+				b.WriteString("<fn>")
+			}
+			return true
+		})
+	}
+	return b.String()
+}
+
+var combBuiltin = map[string]bool{"append": true, "len": true, "cap": true, "make": true, "copy": true, "new": true,
+	"panic": true, "delete": true, "min": true, "max": true, "clear": true}
+
+// methods whose skeleton is extracted: (package, function)
+var combSkelFuncs [][2]string
+
+// combConcurrencyOps counts go statements, channel sends/receives and select statements in all the
+// methods whose skeleton is extracted (C09 "never concurrent": the caller's-goroutine combinators
+// start no goroutine and touch no channel, so every call they make on their source happens inside,
+// and is finished before the end of, the consumer's own call).
+func combConcurrencyOps(c *Ctx, s *Site) (string, error) {
+	n := 0
+	for _, pf := range combSkelFuncs {
+		fd, err := c.FindFunc(pf[0], pf[1])
+		if err != nil {
+			return "", err
+		}
+		ast.Inspect(fd.Body, func(x ast.Node) bool {
+			switch y := x.(type) {
+			case *ast.GoStmt, *ast.SendStmt, *ast.SelectStmt:
+				n++
+			case *ast.UnaryExpr:
+				if y.Op == token.ARROW {
+					n++
+				}
+			}
+			return true
+		})
+	}
+	return fmt.Sprintf("/-- go statements, channel operations and selects in the %d combinator methods / reducers -/\ndef %s : Nat := %d\n", len(combSkelFuncs), s.Name, n), nil
+}
+
+func combSkelStmts(recv string, list []ast.Stmt) string {
+	parts := make([]string, 0, len(list))
+	for _, st := range list {
+		parts = append(parts, combSkelStmt(recv, st))
+	}
+	return strings.Join(parts, ";")
+}
+
+func combSkelStmt(recv string, st ast.Stmt) string {
+	switch x := st.(type) {
+	case *ast.AssignStmt:
+		var ns []ast.Node
+		for _, e := range x.Rhs {
+			ns = append(ns, e)
+		}
+		for _, e := range x.Lhs {
+			ns = append(ns, e)
+		}
+		return "asg" + combSkelTags(recv, ns...)
+	case *ast.DeclStmt:
+		return "var" + combSkelTags(recv, x.Decl)
+	case *ast.ExprStmt:
+		return "call" + combSkelTags(recv, x.X)
+	case *ast.IncDecStmt:
+		if x.Tok == token.INC {
+			return "inc"
+		}
+		return "dec"
+	case *ast.ReturnStmt:
+		var ns []ast.Node
+		for _, e := range x.Results {
+			ns = append(ns, e)
+		}
+		return "ret" + combSkelTags(recv, ns...)
+	case *ast.BranchStmt:
+		switch x.Tok {
+		case token.BREAK:
+			return "brk"
+		case token.CONTINUE:
+			return "cont"
+		case token.GOTO:
+			return "goto"
+		}
+		return "fall"
+	case *ast.BlockStmt:
+		return "{" + combSkelStmts(recv, x.List) + "}"
+	case *ast.IfStmt:
+		s := "if"
+		if x.Init != nil {
+			s += "(" + combSkelStmt(recv, x.Init) + ")"
+		}
+		s += combSkelTags(recv, x.Cond) + "{" + combSkelStmts(recv, x.Body.List) + "}"
+		if x.Else != nil {
+			if b, ok := x.Else.(*ast.BlockStmt); ok {
+				s += "else{" + combSkelStmts(recv, b.List) + "}"
+			} else {
+				s += "else " + combSkelStmt(recv, x.Else)
+			}
+		}
+		return s
+	case *ast.ForStmt:
+		s := "for"
+		if x.Init != nil {
+			s += "(" + combSkelStmt(recv, x.Init) + ")"
+		}
+		if x.Cond != nil {
+			s += "?" + combSkelTags(recv, x.Cond)
+		}
+		if x.Post != nil {
+			s += "(" + combSkelStmt(recv, x.Post) + ")"
+		}
+		return s + "{" + combSkelStmts(recv, x.Body.List) + "}"
+	case *ast.RangeStmt:
+		return "range" + combSkelTags(recv, x.X) + "{" + combSkelStmts(recv, x.Body.List) + "}"
+	case *ast.SwitchStmt, *ast.TypeSwitchStmt, *ast.SelectStmt:
+		kind := "switch"
+		var body *ast.BlockStmt
+		switch y := x.(type) {
+		case *ast.SwitchStmt:
+			body = y.Body
+		case *ast.TypeSwitchStmt:
+			body = y.Body
+		case *ast.SelectStmt:
+			kind, body = "select", y.Body
+		}
+		var cs []string
+		for _, c := range body.List {
+			switch cc := c.(type) {
+			case *ast.CaseClause:
+				cs = append(cs, "case{"+combSkelStmts(recv, cc.Body)+"}")
+			case *ast.CommClause:
+				cs = append(cs, "case{"+combSkelStmts(recv, cc.Body)+"}")
+			}
+		}
+		return kind + "{" + strings.Join(cs, ";") + "}"
+	case *ast.DeferStmt:
+		return "defer" + combSkelTags(recv, x.Call)
+	case *ast.GoStmt:
+		return "go" + combSkelTags(recv, x.Call)
+	case *ast.SendStmt:
+		return "send"
+	case *ast.LabeledStmt:
+		return "label:" + combSkelStmt(recv, x.Stmt)
+	case *ast.EmptyStmt:
+		return "empty"
+	}
+	return fmt.Sprintf("?%T", st)
+}
+
+// combSkeleton is the Custom callback: `def <Name> : String := "<skeleton of Func>"`.
+func combSkeleton(c *Ctx, s *Site) (string, error) {
+	fd, err := c.FindFunc(s.Pkg, s.Func)
+	if err != nil {
+		return "", err
+	}
+	if fd.Body == nil {
+		return "", fmt.Errorf("%s has no body", s.Func)
+	}
+	recv := ""
+	if fd.Recv != nil && len(fd.Recv.List) > 0 && len(fd.Recv.List[0].Names) > 0 {
+		recv = fd.Recv.List[0].Names[0].Name
+	}
+	sk := combSkelStmts(recv, fd.Body.List)
+	return fmt.Sprintf("/-- control skeleton of `%s.%s` -/\ndef %s : String := %s\n", s.Pkg, s.Func, s.Name, leanString(sk)), nil
+}
 
 // combSliceBound extracts the low/high bound of the k-th slice expression x[lo:hi] in a function.
 func combSliceBound(x string, k int, which string) func(c *Ctx, s *Site) (string, error) {
@@ -64,6 +271,10 @@ func init() {
 	const it = "iterator"
 	const st = "stream"
 	const xs = "xslices"
+	skel := func(pkg, fn, name string) Site {
+		combSkelFuncs = append(combSkelFuncs, [2]string{pkg, fn})
+		return Site{Module: mod, Pkg: pkg, Func: fn, Name: name, Kind: Custom, Custom: combSkeleton}
+	}
 	lastVars := map[string]string{"i": "i", "n": "n", "idx": "idx"}
 
 	register(
@@ -153,6 +364,61 @@ func init() {
 		pres(st, "mapStream.Close", "stMapCloseForwards", "", "s.inner.Close()"),
 		pres(st, "runsStream.Close", "stRunsCloseForwards", "", "s.inner.Close()"),
 		pres(st, "whileStream.Close", "stWhileCloseForwards", "", "s.inner.Close()"),
+
+		// ---------------------------------------------------------------- control skeletons
+		// (consumed by Juniper/Proofs/Skeleton.lean: tie lemmas against Model/CombSkel.lean)
+		skel(it, "counterIterator.Next", "skItCounterNext"),
+		skel(it, "repeatIterator.Next", "skItRepeatNext"),
+		skel(it, "sliceIterator.Next", "skItSliceNext"),
+		skel(it, "peekable.Next", "skItPeekNext"),
+		skel(it, "peekable.Peek", "skItPeekPeek"),
+		skel(it, "chunkIterator.Next", "skItChunkNext"),
+		skel(it, "compactIterator.Next", "skItCompactNext"),
+		skel(it, "filterIterator.Next", "skItFilterNext"),
+		skel(it, "firstIterator.Next", "skItFirstNext"),
+		skel(it, "flattenIterator.Next", "skItFlattenNext"),
+		skel(it, "joinIterator.Next", "skItJoinNext"),
+		skel(it, "mapIterator.Next", "skItMapNext"),
+		skel(it, "runsIterator.Next", "skItRunsNext"),
+		skel(it, "runsInnerIterator.Next", "skItRunsInnerNext"),
+		skel(it, "whileIterator.Next", "skItWhileNext"),
+		skel(it, "Collect", "skItCollect"),
+		skel(it, "Equal", "skItEqual"),
+		skel(it, "Last", "skItLast"),
+		skel(it, "One", "skItOne"),
+		skel(it, "Reduce", "skItReduce"),
+		skel(st, "iteratorStream.Next", "skStFromIterNext"),
+		skel(st, "iteratorStream.Close", "skStFromIterClose"),
+		skel(st, "peekable.Next", "skStPeekNext"),
+		skel(st, "peekable.Peek", "skStPeekPeek"),
+		skel(st, "peekable.Close", "skStPeekClose"),
+		skel(st, "chunkStream.Next", "skStChunkNext"),
+		skel(st, "chunkStream.Close", "skStChunkClose"),
+		skel(st, "compactStream.Next", "skStCompactNext"),
+		skel(st, "compactStream.Close", "skStCompactClose"),
+		skel(st, "filterStream.Next", "skStFilterNext"),
+		skel(st, "filterStream.Close", "skStFilterClose"),
+		skel(st, "firstStream.Next", "skStFirstNext"),
+		skel(st, "firstStream.Close", "skStFirstClose"),
+		skel(st, "flattenStream.Next", "skStFlattenNext"),
+		skel(st, "flattenStream.Close", "skStFlattenClose"),
+		skel(st, "flattenSlicesStream.Next", "skStFlattenSlicesNext"),
+		skel(st, "flattenSlicesStream.Close", "skStFlattenSlicesClose"),
+		skel(st, "joinStream.Next", "skStJoinNext"),
+		skel(st, "joinStream.Close", "skStJoinClose"),
+		skel(st, "mapStream.Next", "skStMapNext"),
+		skel(st, "mapStream.Close", "skStMapClose"),
+		skel(st, "runsStream.Next", "skStRunsNext"),
+		skel(st, "runsStream.Close", "skStRunsClose"),
+		skel(st, "runsInnerStream.Next", "skStRunsInnerNext"),
+		skel(st, "runsInnerStream.Close", "skStRunsInnerClose"),
+		skel(st, "whileStream.Next", "skStWhileNext"),
+		skel(st, "whileStream.Close", "skStWhileClose"),
+		skel(st, "Collect", "skStCollect"),
+		skel(st, "Last", "skStLast"),
+		skel(st, "One", "skStOne"),
+		skel(st, "Reduce", "skStReduce"),
+		Site{Module: mod, Pkg: st, Name: "combConcurrencyOps", Kind: Custom, Custom: combConcurrencyOps},
 
 		// ---------------------------------------------------------------- xslices
 		ex(xs, "Chunk", "xsChunkPanics", "if[0].cond", "Bool", I("size"), map[string]string{"chunkSize": "size"}),
